@@ -17,6 +17,10 @@ CLAIMS = {
             "weights, entries()==count, no eviction while usage+weight<=capacity, within capacity afterwards unless pinned / oversized, clear() zeroes, touch leaves nothing pinned; "
             "(b) a RawCacheShard under 2 fully symbolic operations (capacity 0..4, keys, weights 0..3, phantom, hint) with per-eviction minimality; (c) shard capacities add up (all usize, 1..4 shards). "
             "FIFO / LRU / SIEVE instantiations.", "0.4 / 4.C05"),
+    "C07": ("writer side only, context level: from 13 literal pre-state structures of a 4-page block (all the invariant allows) and the index-full boundary structures of a 256-page block, one "
+            "batch of 1-3 entries with symbolic in-page lengths leaves the split context (blob offset, part offset, index count) exactly where the layout rules put it and inside the "
+            "invariant - i.e. the next batch cannot overlap this one and a full index closes the blob. Per-entry addresses, index page contents, the reader / scanner side and mid-batch "
+            "block splits with a non-empty part are NOT decided (DESIGN 0.5).", "0.4 / 4.C07"),
     "C08": ("Code round trips for every numeric type (all bit patterns), bool, String/Vec<u8>/Bytes at concrete lengths 0..8 with symbolic contents; too-small destinations give "
             "BufferSizeLimit, never partial success; entry framing (header write/read, serializer/deserializer, recorded lengths). Compression::None only.", "4.C08"),
     "C11": ("close-flag identity only: the flag handed to the fetch leader is the one InflightManager::take sets when an insert takes the in-flight entry over, so the fetch task sees it "
@@ -37,7 +41,6 @@ CLAIMS = {
 
 NA = {
     "C01": "the core obligation (write-queue visibility in the real Keeper, Store::load's lookup order / key check) does not discharge: portable hashbrown lookups through raw-pointer `Piece`s need >600 s / 10-18 GB for a 4-step concrete schedule (DESIGN 0.5); flusher / reclaim / recovery / reopen need tokio. The keeper defect found on the way was reproduced natively and fixed (6210977).",
-    "C07": "the splitter step (Splitter::split over a 4 KiB blob index page) does not discharge in any shape tried - symbolic or literal offsets, counts, contents, field sensitivity 2048 / 4100, seal stubbed: 17-41 GB in CBMC's array post-processing (DESIGN 0.5); the buffer-side bookkeeping harness is kept under C08.",
     "C10": "everything beyond the slot arithmetic runs through PageBuffer, whose `dyn Any` downcast has no body under Kani's vtable restriction and whose `Result<_, Error>` paths do not discharge (1500 s); async fns cannot be stubbed (DESIGN 0.5). Claiming the property on `calculate_slot_addr` alone would not have detected the defect found in `open` (fixed: 2570f1e, reproduced natively).",
     "C17": "the real HashTableIndexer / in-flight table / keeper lookups (portable hashbrown reading buckets through computed pointers) do not discharge: two inserts + two lookups of colliding keys reach 26 GB / 1000 s (DESIGN 0.5); the RawCache harnesses use colliding keys but a harness indexer, which is not the code C17 is about.",
     "C02": "linearizability under thread interleavings: Kani/CBMC execute Rust sequentially (no thread model); splitting the real functions at interior points would be a hand-written model, not the real code (DESIGN 4.C02)",
